@@ -55,13 +55,26 @@ What is proved
   order; `C02.refAns_is_join_over_tree`, `C02.refAns_stable` the reference answer (join over the ghost
   derivation tree) is as the property states it and is stable while the tree grows.
 
-Not proved: `C02.flow_answers_eq_ref_full` (kept as a `def`) – the end-to-end statement that at every
-prefix each response the source has received is the reference answer of its request and that at
-quiescence every request has exactly one, in order. Missing is the global invariant tying the layers
-together (per writer: pending writes = queued answers ++ pending rows, aligned with the node's `written`
-cells and with the requests held by the linked readers; per reader: the FIFO of feeding writers aligned
-with the held requests; every stored answer = `refAns` of its packet; global distinctness of live ids).
-It is checked on every run of `bin/check C02` instead: `S1` after every step, `F…`/`M1` at the end.
+* End-to-end, class T1 (all nodes one-to-one, links a forest rooted at the linked source –
+  `FlowInv.TreeWF` –, actions return one new out or error packet – `FlowInv.ExtT1`; any depth, any
+  number of requests in flight, every interleaving), by the global invariant `FlowInv.FI`
+  (lean/Uniflow/Proofs/FlowInv1..14.lean: per node the one-to-one spec state; per writer: pending writes
+  = queued answers ++ pending rows, aligned with the node's `written` cells and the requests held by the
+  linked reader, whose FIFO names the writer; every stored answer = `refAns` of its packet; owner tags
+  for the distinctness of live ids across containers):
+  `C02.flow_invariant_partial` the invariant holds in every reachable state;
+  `C02.flow_safety_partial` at every prefix the i-th response is the reference answer of the i-th request;
+  `C02.flow_quiescent_partial` at quiescence every request has exactly one response and `refAnswers`,
+  when determined, equals the responses; `C02.flow_class_instance` the class is inhabited.
+
+Not proved: `C02.flow_answers_eq_ref_full` (kept as a `def`) in general – beyond class T1 (fan-out: a
+writer feeding several readers; fan-in: a reader fed by several writers; one-to-many / many-to-one
+nodes; actions returning their input packet, several or no packets) the invariant needs rows with
+several cells and per-reader FIFOs mixing several writers; and, inside T1, that the fuel `next + 1` of
+`refAnswers` always suffices (log-order invariant: derived ids are larger than their parent's).
+Both are checked on every run of `bin/check C02` instead: `S1` after every step, `F…`/`M1` at the end.
+The statement requires the source to be linked (a request written to an unlinked source is never
+answered and has no reference answer).
 The node theorems require fresh packet ids for everything an action returns, so an action
 returning its input packet is covered at tracer level only (`C02.tracer_refines`, `direct` requests);
 `C02.node_contract_full` (kept as a `def`) is superseded by `C02.node_contract`.
@@ -71,6 +84,7 @@ import Uniflow.Proofs.ATracer
 import Uniflow.Proofs.NodeProtocol
 import Uniflow.Props.C01
 import Uniflow.Proofs.Flow
+import Uniflow.Proofs.FlowInv14
 
 open Uniflow.Tracer Uniflow.Node Uniflow.NodeSpec
 
@@ -566,8 +580,9 @@ def C02.FlowWF (kinds : List Kind) (links : List (Nat × List Tgt)) : Prop :=
     | .sink _ => True
 
 open Uniflow.Flow in
-/-- **End-to-end statement (NOT proved).** For every acyclic workflow of the three node kinds and EVERY
-schedule of the Flow machine (fresh action results):
+/-- **End-to-end statement (NOT proved in general; proved for class T1: `C02.flow_safety_partial`,
+`C02.flow_quiescent_partial`).** For every acyclic workflow of the three node kinds whose source is
+linked and EVERY schedule of the Flow machine (fresh action results):
 (safety, every prefix) the i-th response the source has received is the reference answer of its i-th
 request – in particular a response exists only when every packet derived from the request, down to the
 sinks, has been answered; and (at quiescence) every request has exactly one response, in request
@@ -576,7 +591,7 @@ Checked on every run of `bin/check C02`: the driver prints `refAnswers` at `end`
 REAL responses by the harness – and `M1` iff the model's own responses equal them. -/
 def C02.flow_answers_eq_ref_full : Prop :=
   ∀ (kinds : List Kind) (links : List (Nat × List Tgt)) (es : List Ext),
-    C02.FlowWF kinds links → (∀ e ∈ es, e.fresh = true) →
+    C02.FlowWF kinds links → Uniflow.Tracer.getL links srcKey ≠ [] → (∀ e ∈ es, e.fresh = true) →
     let g := runExt (initG kinds links) es
     (∀ (i : Nat) (a : Ans), g.resp[i]? = some a → ∃ p, g.roots[i]? = some p ∧ ∃ f, refAns g.log f p = some a) ∧
     (quiescent g = true → anyPanic g = false → refAnswers g = some g.resp)
@@ -617,6 +632,60 @@ theorem C02.flow_answers_eq_ref_instance :
        [.pay (.slice [.atom 5, .atom 12]), .pay (.err [11])] => true
      | _, _ => false) = true := by
   refine ⟨?_, ?_, ?_⟩ <;> rfl
+
+/-! ### the end-to-end statement for class T1 (proof by the global invariant, `Proofs/FlowInv1..13`)
+
+Class T1: every node is one-to-one; the links form a forest rooted at the source (`FlowInv.TreeWF`: every
+writer feeds at most one reader, every reader is fed by exactly one writer, node in-port 0 only, links
+go forward, the source is linked); an action returns one NEW packet on its out port or one new packet on
+its error port (`FlowInv.ExtT1`).  Arbitrary depth, arbitrarily many requests in flight, unlinked out /
+error ports (echo), every interleaving of `send` / `release` / `sinkAnswer`. -/
+
+open Uniflow.Flow in
+/-- **The global invariant holds in every reachable state (class T1).** `FlowInv.FI` (file
+`Proofs/FlowInv1.lean`) ties the layers together: every node refines its one-to-one spec state; per
+writer, the pending writes are the queued answers followed by the pending rows, aligned with the node's
+`written` cells and with the requests held by the linked reader, whose FIFO names this writer; every
+stored answer is the reference answer of its packet; live packet ids are distinct across containers. -/
+theorem C02.flow_invariant_partial (N : Nat) (links : List (Nat × List Tgt)) (es : List Ext)
+    (hwf : Uniflow.FlowInv.TreeWF N links) (hes : ∀ e ∈ es, Uniflow.FlowInv.ExtT1 e) :
+    ∃ ss, Uniflow.FlowInv.FI N links ss Uniflow.FlowInv.D0 (runExt (initG (List.replicate N .oneToOne) links) es) :=
+  Uniflow.FlowInv.FIe_runExt N links hwf es _ hes (Uniflow.FlowInv.FIe_init N links hwf)
+
+open Uniflow.Flow in
+/-- **Safety half of `C02.flow_answers_eq_ref_full`, class T1, every schedule, every prefix**: the i-th
+response the source has received is the reference answer of its i-th request – so a response exists only
+when every packet derived from the request, down to the sinks, has been answered, responses come in
+request order and none is duplicated or invented. -/
+theorem C02.flow_safety_partial (N : Nat) (links : List (Nat × List Tgt)) (es : List Ext)
+    (hwf : Uniflow.FlowInv.TreeWF N links) (hes : ∀ e ∈ es, Uniflow.FlowInv.ExtT1 e) (i : Nat) (a : Ans) :
+    (runExt (initG (List.replicate N .oneToOne) links) es).resp[i]? = some a →
+    ∃ p, (runExt (initG (List.replicate N .oneToOne) links) es).roots[i]? = some p ∧
+      ∃ f, refAns (runExt (initG (List.replicate N .oneToOne) links) es).log f p = some a :=
+  Uniflow.FlowInv.FIe_safety N links _
+    (Uniflow.FlowInv.FIe_runExt N links hwf es _ hes (Uniflow.FlowInv.FIe_init N links hwf)) i a
+
+open Uniflow.Flow in
+/-- **Quiescence half of `C02.flow_answers_eq_ref_full`, class T1, every schedule**: when nothing is left
+to do (no sink holds a request, every pump queue, tracer and inbox is empty) every request of the source
+has exactly one response (`resp.length = roots.length`; by `C02.flow_safety_partial` the i-th one is the
+reference answer of the i-th request), and whenever the executable reference `refAnswers` (fuel
+`next + 1`) is determined it is exactly the list of responses. (Not proved: that fuel `next + 1` always
+suffices, i.e. `refAnswers g ≠ none` here – it needs the additional log-order invariant "derived ids are
+larger than their parent's"; the driver checks it on every run, `M1`.) -/
+theorem C02.flow_quiescent_partial (N : Nat) (links : List (Nat × List Tgt)) (es : List Ext)
+    (hwf : Uniflow.FlowInv.TreeWF N links) (hes : ∀ e ∈ es, Uniflow.FlowInv.ExtT1 e) :
+    quiescent (runExt (initG (List.replicate N .oneToOne) links) es) = true →
+    (runExt (initG (List.replicate N .oneToOne) links) es).resp.length =
+      (runExt (initG (List.replicate N .oneToOne) links) es).roots.length ∧
+    ∀ l, refAnswers (runExt (initG (List.replicate N .oneToOne) links) es) = some l →
+      l = (runExt (initG (List.replicate N .oneToOne) links) es).resp :=
+  Uniflow.FlowInv.FIe_quiescent_ref N links hwf _
+    (Uniflow.FlowInv.FIe_runExt N links hwf es _ hes (Uniflow.FlowInv.FIe_init N links hwf))
+
+/-- non-vacuity of class T1: source → node 0 → node 1 → sink 0 (error ports unlinked) is in the class -/
+theorem C02.flow_class_instance : Uniflow.FlowInv.TreeWF 2 Uniflow.FlowInv.chainLinks :=
+  Uniflow.FlowInv.chain_wf
 
 /-! ### the pinned tree -/
 
